@@ -771,6 +771,9 @@ func builtinKeys(i *Interpreter, args []Expr, env *Environment) (interface{}, er
 	for k := range obj {
 		keys = append(keys, k)
 	}
+	// Go walks a map in a different order on every call; sort the keys so that
+	// the same object gives the same list every time
+	sort.Slice(keys, func(a, b int) bool { return keys[a].(string) < keys[b].(string) })
 	return keys, nil
 }
 
